@@ -244,6 +244,7 @@ fn replay(path: &str) -> i32 {
                 "C15" => props_sched::c15_families(tier),
                 "C01" => props_sched::c01_families(tier),
                 "C05" => props_sched::c05_families(tier),
+                "C08" => props_sched::c08_families(tier),
                 _ => vec![],
             };
             let fam = match fams.iter().find(|f| Some(f.name.as_str()) == v["family"].as_str()) {
@@ -344,8 +345,8 @@ fn main() {
                     report::merge("C01", &t, vec![("sequential_histories", a), ("concurrent_other_key_all_schedules", b)])
                 }
                 "C02" => check_seq("C02", tier),
-                "C03" => check_sched::check("C03", tier, props_sched::c03_families(tier), &["linearizable", "no-panic"], nthreads()),
-                "C04" => check_sched::check("C04", tier, props_sched::c04_families(tier), &["linearizable", "no-panic"], nthreads()),
+                "C03" => check_sched::check("C03", tier, props_sched::c03_families(tier), &["linearizable", "token-duplicated", "no-panic"], nthreads()),
+                "C04" => check_sched::check("C04", tier, props_sched::c04_families(tier), &["linearizable", "token-duplicated", "no-panic"], nthreads()),
                 "C05" => {
                     let a = check_seq("C05", tier);
                     let b = check_sched::check("C05", tier, props_sched::c05_families(tier), &["linearizable", "no-panic", "deadlock", "livelock"], nthreads());
@@ -356,7 +357,12 @@ fn main() {
                 "C14c" => check_sched::check("C14", tier, props_sched::c14_families(tier), &["over-limit", "over-limit-after-race", "over-limit-after-quiet-race", "deadlock", "livelock", "no-panic"], nthreads()),
                 "C06" => check_seq("C06", tier),
                 "C07" => check_seq("C07", tier),
-                "C08" => check_seq("C08", tier),
+                "C08" => {
+                    let a = check_seq("C08", tier);
+                    let b = check_sched::check("C08", tier, props_sched::c08_families(tier), &["linearizable", "no-panic", "deadlock", "livelock"], nthreads());
+                    let t = a.tier.clone();
+                    report::merge("C08", &t, vec![("sequential_histories", a), ("delete_vs_concurrent_commands_all_schedules", b)])
+                }
                 "C09" => check_c09::check(tier, nthreads()),
                 "C10" => check_c10::check(tier, nthreads()),
                 "C11" => {
@@ -425,6 +431,7 @@ fn main() {
                 "C15" => props_sched::c15_families(tier),
                 "C01" => props_sched::c01_families(tier),
                 "C05" => props_sched::c05_families(tier),
+                "C08" => props_sched::c08_families(tier),
                 _ => props_sched::c14_families(tier),
             };
             sut::set_quiet(true);
